@@ -29,7 +29,7 @@ TYPES = stacks.LAYER_TYPES
 
 def cases(tier, seed):
     out = []
-    n = 48 if tier == "quick" else 640
+    n = 48 if tier == "quick" else 4000
     per = 6 if tier == "quick" else 8
     for i in range(n):
         out.append({"name": "stack.fuzz/%d" % i, "kind": "fuzz", "idx": i, "n": per})
